@@ -231,6 +231,8 @@ def check(tier: str) -> Result:
     n_shapes = shape_rules.state_shape_obligations(res, tree, "C13.R6")
     from .common import borrow
     n_keys = borrow(res, "c10", {"C10.R1a": "C13.R5"})
+    # ---- R7: the same obligations on the batched sibling (the property is quantified over jit / vmap / scan use)
+    n_sib = borrow(res, "c14", {"C14.R2": "C13.R7"})
     res.analysed = {"generator_key_obligations": n_keys, "classes": ["jumanji.wrappers.AutoResetWrapper"], "functions": sorted(vfg.visited_funcs), "state_leaf_shapes_compared": n_shapes}
     res.assumptions = ["the wrapped environment is abstract (any Environment); lax.cond selects one branch result",
                        "jax.random.split yields keys distinct from its input"]
